@@ -6,18 +6,19 @@
    history (polynomial hash modulo 2^61-1, computed identically by the Go harness); the detailed
    form (one expected value list per step) is kept for diagnosis.
    Used by the generated run/C11/cases_*.v files.  Not part of any theorem. *)
-From Hy Require Import lib.Harness lib.F64 model.C11_Pacer model.C11_Brutal.
+From Hy Require Import lib.Harness lib.F64 model.C11_Pacer model.C11_Brutal model.C11_Calls.
 From Coq Require Import ZArith Bool.
 Local Open Scope Z_scope.
 
 (* compact script: every call is followed by the queries, made at the current virtual time and
    with the current smoothed RTT *)
 Inductive cstep :=
-| Sn (t size : Z)       (* OnPacketSent(t, _, _, size, _); now := t *)
+| Sn (t size : Z)       (* OnPacketSent(t, 0, 0, size, true); now := t *)
 | Ev (t nack nloss : Z) (* OnCongestionEventEx(_, t, nack acked, nloss lost); now := t *)
 | Md (s : Z)            (* SetMaxDatagramSize(s) *)
 | Wt (now : Z)          (* nothing is called; now := now *)
-| Rt (rtt : Z).         (* the fake RTT provider's SmoothedRTT := rtt; no call, no queries *)
+| Rt (rtt : Z)          (* the fake RTT provider's SmoothedRTT := rtt; no call, no queries *)
+| Sx (t size : Z).      (* OnPacketSent(t, 0, 0, size, false): a packet that is not ack-eliciting; now := t *)
 
 Inductive case :=
 | CDig (bps : Z) (disable : bool) (steps : list cstep) (nobs : Z) (dig : Z)
@@ -59,13 +60,14 @@ Definition rstep (r : rstate) (s : cstep) : rstate * option (list Z) :=
   | Rt v => (mkR (r_b r) (r_now r) v, None)
   | _ =>
       let '(o, now) := match s with
-                       | Sn t size => (OSent t size, t)
-                       | Ev t a l => (OEvent t a l, t)
-                       | Md v => (OSetMds v, r_now r)
-                       | Wt n => (ONop, n)
-                       | Rt _ => (ONop, r_now r)
+                       | Sn t size => (KSent t 0 0 size true, t)
+                       | Sx t size => (KSent t 0 0 size false, t)
+                       | Ev t a l => (KEvent t a l, t)
+                       | Md v => (KSetMds v, r_now r)
+                       | Wt n => (KNop, n)
+                       | Rt _ => (KNop, r_now r)
                        end in
-      let '(b1, pan) := bstep (r_b r) o in
+      let '(b1, pan) := kstep (r_b r) o in
       (mkR b1 now (r_rtt r), Some (obs_list b1 pan now (r_rtt r)))
   end.
 
